@@ -172,6 +172,8 @@ def _host():
 
 
 RX_FAMILIES = {
+    # cheap to match, long to compile: with a pattern given as a string the compilation is part of every call
+    "big_count": ("a{5000}b|(?:ab){1500}c", "a"),
     "nested_plus": ("(a+)+b", "a"),
     "alt_overlap": ("(a|aa)+b", "a"),
     "star_star": ("(a*)*b", "a"),
@@ -264,7 +266,55 @@ def _phases():
     def phase_change(c, p):
         return ("", "var O9={}; for(var q9=0;q9<60;q9++){ O9['k'+q9]=[q9,{a:q9,b:'x'+q9}]; } var S9=JSON.stringify(O9); "
                     "for (var ph9=0; ph9<%d; ph9++){} while(%s){ JSON.parse(S9); }" % (p.get("ph_iters", 1000), _c(c)))
-    return {"phase_change": phase_change}
+    def native_cb_grow(c, p):
+        # the callback is a native function that grows the very array the built-in iterates over:
+        # no script instruction runs between two calls, so only the built-in's own loop can end it
+        return ("", "while(%s){ var a9=[1,2]; a9.%s(a9.%s); }" % (_c(c), p.get("ng_method", "forEach"), p.get("ng_fn", "push")))
+
+    def pow_tower(c, p):
+        # arithmetic whose exact result would not fit any machine: each step must stay one bounded step
+        return ("", "var x9=%s; while(%s){ x9 = x9 %s; }" % (p.get("pt_base", "3"), _c(c), p.get("pt_op", "** 3")))
+    def builtin_edge(c, p):
+        # one numeric built-in fed, forever, with the edge values of the number line: every single
+        # call is a bounded step whatever the value (an error that ends the evaluation early is not
+        # a matter for this property)
+        vals = p.get("be_vals", list(EDGE_VALUES))
+        return ("", "var f9 = %s; var v9 = [%s]; var i9 = 0; while(%s){ f9(v9[i9 %% v9.length], v9[(i9 >> 4) %% v9.length]); i9++; }"
+                    % (EDGE_FNS[p.get("be_fn", "Math.clz32")], ", ".join(vals), _c(c)))
+    return {"phase_change": phase_change, "native_cb_grow": native_cb_grow, "pow_tower": pow_tower, "builtin_edge": builtin_edge}
+
+
+EDGE_VALUES = ("0", "-0", "1", "-1", "0.5", "-1.5", "NaN", "Infinity", "-Infinity", "2147483647", "2147483648", "-2147483648",
+               "4294967295", "4294967296", "-4294967296", "9007199254740992", "-9007199254740992", "1e21", "1e300", "-1e300",
+               "5e-324", "1.7976931348623157e308", "'12'", "null", "undefined", "true", "[]", "({})", "''", "'x'")
+EDGE_FNS = {("Math." + n): ("Math." + n) for n in (
+    "abs floor ceil round trunc min max pow sqrt sin cos tan asin acos atan atan2 log exp sign imul fround clz32 hypot cbrt "
+    "log2 log10 expm1 log1p").split()}
+EDGE_FNS.update({
+    "toString_radix": "function(v, w){ return Number(v).toString(2) + Number(v).toString(36); }",
+    "toFixed": "function(v, w){ return Number(v).toFixed(2) + Number(v).toFixed(0); }",
+    "toPrecision": "function(v, w){ return Number(v).toPrecision(3); }",
+    "toExponential": "function(v, w){ return Number(v).toExponential(2); }",
+    "parseInt": "function(v, w){ return parseInt(String(v)) + parseInt(String(v), 16) + parseFloat(String(v)); }",
+    "Number": "function(v, w){ return Number(v) + Number(String(v)) + (+v); }",
+    "isX": "function(v, w){ return [isNaN(v), isFinite(v), Number.isInteger(v), Number.isNaN ? Number.isNaN(v) : 0]; }",
+    "bitops": "function(v, w){ return [v | 0, v >>> 0, v >> w, v << w, v >>> w, v & w, v ^ w, ~v]; }",
+    "arith": "function(v, w){ return [v % w, v / w, v * w, v - w, v + w, -v, v ** 2, 2 ** v, v ** w]; }",
+    "compare": "function(v, w){ return [v < w, v <= w, v == w, v === w, v != w]; }",
+    "charAt": "function(v, w){ return 'abc'.charAt(v) + 'abc'.charCodeAt(v) + 'abc'[v]; }",
+    "substring": "function(v, w){ return 'abcdef'.substring(v, w) + 'abcdef'.slice(v, w); }",
+    "str_index": "function(v, w){ return ['abcabc'.indexOf('c', v), 'abcabc'.lastIndexOf('c', v), 'abc'.includes('c', v), 'abc'.startsWith('c', v), 'abc'.endsWith('c', v)]; }",
+    "arr_slice": "function(v, w){ return [1, 2, 3].slice(v, w).length + [1, 2, 3].indexOf(2, v) + [1, 2, 3].lastIndexOf(2, v); }",
+    "arr_splice": "function(v, w){ var a = [1, 2, 3]; a.splice(v, w); return a.length; }",
+    "arr_index": "function(v, w){ var a = [1, 2, 3]; return [a[v], a.includes(2, v), a.at ? a.at(v) : 0]; }",
+    "fromCharCode": "function(v, w){ return String.fromCharCode(v).length; }",
+    "String": "function(v, w){ return String(v) + (v + '') + [v].join() + JSON.stringify(v) + JSON.stringify([v, w]); }",
+    "Date": "function(v, w){ return typeof Date.now() ; }",
+    "regex_lastIndex": "function(v, w){ var r = /a/g; r.lastIndex = v; return [r.test('aaa'), r.lastIndex]; }",
+    "split_limit": "function(v, w){ return 'a,b,c'.split(',', v).length; }",
+    "typed": "function(v, w){ var t = new Int32Array(2); t[0] = v; var u = new Uint8Array(2); u[1] = v; return [t[0], u[1], t[v]]; }",
+})
+EDGE_FN_NAMES = sorted(EDGE_FNS)
 
 
 KEEPALIVES = {}
@@ -464,6 +514,20 @@ def gen_case(seed, i, tier="quick"):
         params["chain_depth"] = rng.choice((2, 3, 4))
         params["chain_iters"] = int(0.8 * t_work / 45)
         params["bounded"] = True
+    if ka == "native_cb_grow":
+        params["ng_method"] = rng.choice(("forEach", "map", "filter", "every", "find", "findIndex", "some", "reduce", "reduceRight"))
+        params["ng_fn"] = rng.choice(("push", "push", "unshift"))
+    if ka == "pow_tower":
+        params["pt_base"] = rng.choice(("3", "-3", "1.5", "7"))
+        params["pt_op"] = rng.choice(("** 3", "** 2", "** x9", "* x9", "** 40000000"))
+    if ka not in ("regex", "loop_native_big", "eval_chain_busy") and rng.random() < 0.04:
+        ka = "builtin_edge"
+    if ka == "builtin_edge":
+        params["be_fn"] = rng.choice(EDGE_FN_NAMES)
+        vals = list(EDGE_VALUES)
+        rng.shuffle(vals)
+        params["be_vals"] = vals
+        params["may_fail"] = True
     if ka == "phase_change":
         t_work = rng.choice((150_000, 200_000, 300_000))
         params["ph_iters"] = int(rng.choice((0.2, 0.3, 0.4, 0.6)) * t_work / 45)
@@ -610,6 +674,8 @@ def judge(case, r):
                 v.append({"clause": "C01.early", "detail": "TimeLimitError after %.6fs of a %.6fs limit (bounded script)" % (r["elapsed"], r["T"])})
         elif r["outcome"] == "cap":
             v.append({"clause": "precondition", "detail": "control script did not finish"})
+        elif r["outcome"] in ("js_error", "host_exc") and case["cell"].get("params", {}).get("may_fail"):
+            pass
         elif not (r["outcome"] == "value" and r["value"] == "done"):
             v.append({"clause": "precondition", "detail": "control twin ended in %s %s %s" % (r["outcome"], r["cls"], r["msg"])})
         return v
@@ -628,6 +694,8 @@ def judge(case, r):
         v.append({"clause": "precondition", "detail": "MemoryLimitError in a C01 cell"})
     elif r["outcome"] == "value" and case["cell"].get("params", {}).get("bounded"):
         pass  # a bounded long-running script may finish; the overrun clause below still applies
+    elif r["outcome"] in ("js_error", "host_exc") and case["cell"].get("params", {}).get("may_fail"):
+        pass  # a built-in refused an edge value: the evaluation ended, which is all this property asks
     else:
         v.append({"clause": "C01.class", "detail": "non-terminating script ended in %s %s: %s" % (
             r["outcome"], r["cls"], (r["msg"] if r["outcome"] != "value" else json.dumps(r["value"])))})
